@@ -11,7 +11,7 @@ def sig_of(e):
     c = e.get('cfg', {})
     if e['ev'] == 'basis':
         return "poly:basis:%s:%s" % (c.get('a'), c.get('b'))
-    if e['ev'] in ('factor', 'peval', 'pevalmod'):
+    if e['ev'] in ('factor', 'peval', 'pevalmod', 'chebapx'):
         return "poly:tool:%s:%s:deg=%s:%s" % (e['ev'], e.get('basis', 'mono'), len(e.get('p', [])) - 1, e.get('parity', e.get('P', '-')))
     return "poly:%s:%s:%s:deg=%s:%s:inv=%s" % (e['set'], c.get('basis'), c.get('mode'), c.get('deg'), c.get('parity'), c.get('invariant'))
 
@@ -45,7 +45,7 @@ def run_polyeval(ctx, frame=False):
     if ctx.replay:
         rp = json.load(open(ctx.replay))
         cfgs = [json.dumps(rp['event']['cfg'])] if 'cfg' in rp['event'] else []
-        if rp['event']['ev'] in ('basis', 'factor', 'peval', 'pevalmod'):
+        if rp['event']['ev'] in ('basis', 'factor', 'peval', 'pevalmod', 'chebapx'):
             cfgs = []
     else:
         sets = json.loads(vrun(['c13', 'sets'])[0].strip().splitlines()[0])
